@@ -166,6 +166,9 @@ def check_C08(chk):
     c08f(chk)
     # shared clause: the counts of one record start from zero (`exactly its ALT alleles`): the per-record reset decided for C11
     chk.borrow(lambda: (RC.c11a(chk), RC.c11b(chk)), "C08.g", 4)
+    # the classifier sees every decoded call: the readers hand on the sample columns as decoded, for both formats (C10.e)
+    import rules_io as RIO8_
+    chk.borrow(lambda: RIO8_.reader_outcomes(chk, "C10.e"), "C08.h", 6)
     for r, n in (("C08.a", 3), ("C08.b", 3), ("C08.c", 2), ("C08.d", 7), ("C08.e", 1), ("C08.f", 3)):
         chk.floor(r, n)
 
@@ -504,6 +507,9 @@ def check_C09(chk):
         RC.sample_loop_exits(chk, rs_, "C09.j")
     import rules_io as RIO_
     RIO_.readers_do_not_judge(chk, "C09.j")
+    # `only listed samples count`: nothing about an unlisted column has an effect, not even an unusable genotype (C01.a, C08.f)
+    if rs_.ok:
+        chk.borrow(lambda: (RC.c01a(chk, rs_), c08f(chk)), "C09.k", 6)
     for r, n in (("C09.i", 2), ("C09.h", 4), ("C09.a", 2), ("C09.b", 7), ("C09.c", 3), ("C09.d", 10), ("C09.e", 3), ("C09.f", 2), ("C09.g", 2)):
         chk.floor(r, n)
 
@@ -1076,6 +1082,9 @@ def check_C12(chk):
     rules_io.buffered_input_capacity(chk, "C12.d")
     # shared clause: the sniffers and readers see the same bytes whatever the block layout only if no short read is taken for a full one (C18.a)
     chk.borrow(lambda: rules_io.c18a(chk), "C12.e", 5)
+    # the VCF and the BCF reader are siblings: both hand on the decoded sample columns and nothing else, and end / fail alike (C10.e);
+    # per-record state is reset for both alike (C11.d)
+    chk.borrow(lambda: (rules_io.reader_outcomes(chk, "C10.e"), RC.c11d(chk)), "C12.f", 8)
     for r, n in (("C12.a", 7), ("C12.b", 3), ("C12.c", 3), ("C12.d", 9)):
         chk.floor(r, n)
 
